@@ -68,6 +68,7 @@ var glSpecs = []glSpec{
 	{"range-cache", "Range", "isValidFor", "rangeIsValidFor"},
 	{"split-car-fetcher", "", "min", "scfMin"},
 	{"split-car-fetcher", "", "max", "scfMax"},
+	{"split-car-fetcher", "MultiReaderAt", "ReadAt", "scfMultiReadAt"},
 	{"deprecated/compactindex", "", "searchEytzinger", "l8SearchEytzinger"},
 	{"deprecated/compactindex", "", "hashUint64", "l8HashUint64"},
 	{"deprecated/compactindex", "Header", "BucketHash", "l8BucketHash"},
@@ -94,6 +95,9 @@ type glExtern struct{ param, leanType string }
 var glExterns = map[string]glExtern{
 	"github.com/cespare/xxhash/v2.Sum64": {"xxSum64", "List UInt8 → UInt64"},
 }
+
+// functions whose Go errors are data (they inspect, compare and return error VALUES such as io.EOF)
+var glErrData = map[string]bool{"scfMultiReadAt": true}
 
 var leanKeywords = map[string]bool{}
 
@@ -374,8 +378,11 @@ func (g *glGen) analyse() {
 						return true
 					}
 					qn := qualName(cf)
-					if strings.HasPrefix(qn, "encoding/binary.littleEndian.PutUint") || qn == "encoding/binary.PutUvarint" {
+					if strings.HasPrefix(qn, "encoding/binary.littleEndian.PutUint") || qn == "encoding/binary.PutUvarint" || qn == "io.ReaderAt.ReadAt" {
 						mark(x.Args[0])
+					}
+					if qn == "io.ReadFull" {
+						mark(x.Args[1])
 					}
 					if c := g.funcs[cf]; c != nil {
 						for i := range x.Args {
@@ -434,6 +441,12 @@ func (g *glGen) leanTypeOK(t types.Type) (string, bool) {
 	}
 	if isNamed(t, "bytes", "Buffer") {
 		return "(List UInt8)", true
+	}
+	if isErrorType(t) {
+		return "Go.Error", true // only reached in functions translated with errors as data
+	}
+	if isNamed(t, "io", "ReaderAt") {
+		return "Go.ReaderAt", true
 	}
 	if nt, ok := t.(*types.Named); ok {
 		if _, isStruct := nt.Underlying().(*types.Struct); isStruct {
@@ -552,6 +565,12 @@ func (g *glGen) zero(t types.Type) (string, bool) {
 	if isNamed(t, "bytes", "Buffer") {
 		return "([] : List UInt8)", true
 	}
+	if isErrorType(t) {
+		return "Go.Error.nil", true
+	}
+	if isNamed(t, "io", "ReaderAt") {
+		return "(default : Go.ReaderAt)", true
+	}
 	if nt, ok := t.(*types.Named); ok {
 		if _, isStruct := nt.Underlying().(*types.Struct); isStruct {
 			return g.structName(nt) + ".zero", true
@@ -614,7 +633,11 @@ func (g *glGen) structDefs() string {
 			zeros = append(zeros, fmt.Sprintf("%s := %s", leanIdent(f.Name()), z))
 		}
 		var c strings.Builder
-		fmt.Fprintf(&c, "/-- %s.%s -/\nstructure %s where\n%s\nderiving Repr, DecidableEq\n", nt.Obj().Pkg().Path(), nt.Obj().Name(), name, strings.Join(fields, "\n"))
+		deriving := "deriving Repr, DecidableEq\n"
+		if strings.Contains(strings.Join(fields, " "), "Go.ReaderAt") || strings.Contains(strings.Join(fields, " "), "→") {
+			deriving = "" // function-valued fields
+		}
+		fmt.Fprintf(&c, "/-- %s.%s -/\nstructure %s where\n%s\n%s", nt.Obj().Pkg().Path(), nt.Obj().Name(), name, strings.Join(fields, "\n"), deriving)
 		fmt.Fprintf(&c, "def %s.zero : %s := { %s }\ninstance : Inhabited %s := ⟨%s.zero⟩\n\n", name, name, strings.Join(zeros, ", "), name, name)
 		chunks = append(chunks, c.String())
 	}
@@ -682,6 +705,7 @@ type glCtx struct {
 	mutObjs    []types.Object      // receiver / params whose new value is returned, in order
 	declared   map[types.Object]bool
 	fuelName   string
+	errData    bool // errors are values (compared, stored, returned as data) instead of travelling through the monad
 }
 
 func (c *glCtx) emit(format string, a ...any) {
@@ -711,6 +735,9 @@ func (c *glCtx) nameOf(o types.Object) string {
 }
 
 func (c *glCtx) fail(n ast.Node, format string, a ...any) { glFail(c.p, n, format, a...) }
+
+// monErr: t is the error type AND errors travel through the monad in this function
+func (c *glCtx) monErr(t types.Type) bool { return isErrorType(t) && !c.errData }
 
 func (c *glCtx) typeOf(e ast.Expr) types.Type { return c.p.TypesInfo.TypeOf(e) }
 
@@ -749,7 +776,7 @@ func (g *glGen) translate(f *glFunc) (src string, err error) {
 			panic(r)
 		}
 	}()
-	c := &glCtx{g: g, f: f, p: f.p, names: map[types.Object]string{}, used: map[string]int{}, declared: map[types.Object]bool{}, fuelName: "fuel", loopCtr: new(int)}
+	c := &glCtx{g: g, f: f, p: f.p, names: map[types.Object]string{}, used: map[string]int{}, declared: map[types.Object]bool{}, fuelName: "fuel", loopCtr: new(int), errData: glErrData[f.spec.lean]}
 	sig := f.obj.Type().(*types.Signature)
 	c.sig = sig
 	c.used["fuel"] = 1
@@ -799,7 +826,7 @@ func (g *glGen) translate(f *glFunc) (src string, err error) {
 	hasErr := false
 	for i := 0; i < sig.Results().Len(); i++ {
 		rv := sig.Results().At(i)
-		if isErrorType(rv.Type()) && i == sig.Results().Len()-1 {
+		if c.monErr(rv.Type()) && i == sig.Results().Len()-1 {
 			hasErr = true
 			c.results = append(c.results, rv)
 			continue
@@ -824,7 +851,7 @@ func (g *glGen) translate(f *glFunc) (src string, err error) {
 	}
 	// named results
 	for _, rv := range c.results {
-		if rv.Name() != "" && rv.Name() != "_" && !isErrorType(rv.Type()) {
+		if rv.Name() != "" && rv.Name() != "_" && !c.monErr(rv.Type()) {
 			z, ok := g.zero(rv.Type())
 			if !ok {
 				c.fail(f.decl, "zero value of %s", rv.Type())
@@ -910,7 +937,15 @@ func assignedObjs(p *packages.Package, n ast.Node) map[types.Object]bool {
 				root(x.Value)
 			}
 		case *ast.CallExpr:
-			// every argument that may be written through
+			// every argument that may be written through (not: len/cap and conversions, which only read)
+			if id, ok := ast.Unparen(x.Fun).(*ast.Ident); ok {
+				if b, isB := p.TypesInfo.Uses[id].(*types.Builtin); isB && (b.Name() == "len" || b.Name() == "cap") {
+					return true
+				}
+			}
+			if tv, ok := p.TypesInfo.Types[x.Fun]; ok && tv.IsType() {
+				return true
+			}
 			for _, a := range x.Args {
 				switch a.(type) {
 				case *ast.Ident, *ast.SliceExpr, *ast.SelectorExpr, *ast.IndexExpr:
@@ -922,8 +957,12 @@ func assignedObjs(p *packages.Package, n ast.Node) map[types.Object]bool {
 				}
 			}
 			if se, ok := x.Fun.(*ast.SelectorExpr); ok {
-				if _, isCall := p.TypesInfo.Selections[se]; isCall {
-					root(se.X)
+				if sel, isCall := p.TypesInfo.Selections[se]; isCall {
+					// a method call may write through its receiver — except through an interface value (io.ReaderAt …):
+					// what the dynamic receiver does to itself is not a write to the variable holding it
+					if _, isIface := sel.Recv().Underlying().(*types.Interface); !isIface {
+						root(se.X)
+					}
 				}
 			}
 		}
@@ -1001,7 +1040,7 @@ func (c *glCtx) errTarget(as *ast.AssignStmt) types.Object {
 	if o == nil {
 		o = c.p.TypesInfo.Uses[last]
 	}
-	if o == nil || !isErrorType(o.Type()) {
+	if o == nil || !c.monErr(o.Type()) {
 		return nil
 	}
 	return o
@@ -1058,7 +1097,7 @@ func (c *glCtx) stmt(st ast.Stmt) (terminated bool) {
 			vs := sp.(*ast.ValueSpec)
 			for i, n := range vs.Names {
 				o := c.p.TypesInfo.Defs[n]
-				if isErrorType(o.Type()) {
+				if c.monErr(o.Type()) {
 					continue // `var err error`: errors travel through the monad
 				}
 				var val string
@@ -1196,7 +1235,7 @@ func (c *glCtx) assign(s *ast.AssignStmt, errIdiom bool) {
 			if o == nil {
 				o = c.p.TypesInfo.Uses[id]
 			}
-			if o != nil && isErrorType(o.Type()) {
+			if o != nil && c.monErr(o.Type()) {
 				c.fail(s, "error value stored in a variable outside the propagate idiom")
 			}
 		}
@@ -1321,7 +1360,7 @@ func (c *glCtx) emitReturn(s *ast.ReturnStmt, n ast.Node) {
 	var vals []string
 	if s == nil || len(s.Results) == 0 {
 		for _, rv := range c.results {
-			if isErrorType(rv.Type()) {
+			if c.monErr(rv.Type()) {
 				continue
 			}
 			if rv.Name() == "" || rv.Name() == "_" {
@@ -1340,7 +1379,7 @@ func (c *glCtx) emitReturn(s *ast.ReturnStmt, n ast.Node) {
 		}
 		nn := 0
 		for _, rv := range c.results {
-			if !isErrorType(rv.Type()) {
+			if !c.monErr(rv.Type()) {
 				nn++
 			}
 		}
@@ -1351,7 +1390,7 @@ func (c *glCtx) emitReturn(s *ast.ReturnStmt, n ast.Node) {
 		}
 		// error result first: a non-nil error aborts
 		for i, r := range s.Results {
-			if !isErrorType(c.results[i].Type()) {
+			if !c.monErr(c.results[i].Type()) {
 				continue
 			}
 			if id, ok := ast.Unparen(r).(*ast.Ident); ok && id.Name == "nil" {
@@ -1390,7 +1429,7 @@ func (c *glCtx) emitReturn(s *ast.ReturnStmt, n ast.Node) {
 			c.fail(n, "returned error expression")
 		}
 		for i, r := range s.Results {
-			if isErrorType(c.results[i].Type()) {
+			if c.monErr(c.results[i].Type()) {
 				continue
 			}
 			vals = append(vals, c.exprAs(r, c.results[i].Type()))
@@ -1630,7 +1669,7 @@ func (c *glCtx) loopWith(lp loopParts, condStr string, postFn func(*glCtx), extr
 	}
 	// translate the body in a sub-context
 	sub := &glCtx{g: c.g, f: c.f, p: c.p, names: c.names, used: c.used, tmp: c.tmp, loopCtr: c.loopCtr, retType: c.retType, results: c.results,
-		sig: c.sig, inLoop: true, loopState: state, mutObjs: c.mutObjs, declared: c.declared, fuelName: "fuel0", indent: 2}
+		sig: c.sig, errData: c.errData, inLoop: true, loopState: state, mutObjs: c.mutObjs, declared: c.declared, fuelName: "fuel0", indent: 2}
 	sub.retWrap = func(s string) string { return "(LoopRes.ret " + s + ")" }
 	recur := func() string {
 		return fmt.Sprintf("%s %s fuel %s", loopName, strings.Join(callFixed2(callFixed, "fuel0"), " "), strings.Join(stNames, " "))
